@@ -59,6 +59,28 @@ type GenCfg struct {
 	CmdPct     int  // percent of commands (below max depth) having sub-commands (default 70)
 }
 
+// uniformInt draws an (almost exactly) uniform integer in [0, n). rapid's own
+// integer generators are deliberately biased towards small values and range
+// ends (IntRange(0,99) >= 10 holds in 58% of draws, not 90%), which distorts
+// every "with probability p" decision; fair bits are not biased. All-false bits
+// (what shrinking tends to) give 0.
+func uniformInt(t *rapid.T, label string, n int) int {
+	if n <= 1 {
+		return 0
+	}
+	bits := rapid.SliceOfN(rapid.Bool(), 16, 16).Draw(t, label)
+	v := 0
+	for _, b := range bits {
+		v <<= 1
+		if b {
+			v |= 1
+		}
+	}
+	return v % n
+}
+
+// pct is true with probability p percent; 0 bits mean "no" so that shrinking
+// removes features.
 func pct(t *rapid.T, label string, p int) bool {
 	if p <= 0 {
 		return false
@@ -66,8 +88,7 @@ func pct(t *rapid.T, label string, p int) bool {
 	if p >= 100 {
 		return true
 	}
-	// high draws mean "yes" so that shrinking (towards 0) removes features
-	return rapid.IntRange(0, 99).Draw(t, label) >= 100-p
+	return uniformInt(t, label, 100) >= 100-p
 }
 
 // weighted picks an index according to weights.
@@ -79,7 +100,7 @@ func weighted(t *rapid.T, label string, w []int) int {
 	if sum == 0 {
 		return 0
 	}
-	n := rapid.IntRange(0, sum-1).Draw(t, label)
+	n := uniformInt(t, label, sum)
 	for i, x := range w {
 		if n < x {
 			return i
@@ -435,7 +456,7 @@ func (g *declGen) positional() *Positional {
 	p := &Positional{Field: g.field("Pos")}
 	n := rapid.IntRange(0, 3).Draw(t, "npos")
 	for i := 0; i < n; i++ {
-		pa := PosArg{Field: g.field("A"), Kind: rapid.SampledFrom([]Kind{KString, KString, KInt, KFloat64, KUpper}).Draw(t, "posKind")}
+		pa := PosArg{Field: g.field("A"), Kind: rapid.SampledFrom([]Kind{KString, KString, KString, KInt, KFloat64, KUpper, KUint8, KDuration, KTri, KInt64}).Draw(t, "posKind")}
 		if pct(t, "posName", 50) {
 			pa.Name = fmt.Sprintf("arg%d", g.nField)
 		}
@@ -448,7 +469,7 @@ func (g *declGen) positional() *Positional {
 		p.Args = append(p.Args, pa)
 	}
 	if pct(t, "posRest", 45) || n == 0 {
-		pa := PosArg{Field: g.field("R"), Kind: rapid.SampledFrom([]Kind{KStringSlice, KStringSlice, KIntSlice}).Draw(t, "restKind")}
+		pa := PosArg{Field: g.field("R"), Kind: rapid.SampledFrom([]Kind{KStringSlice, KStringSlice, KIntSlice, KFloatSlice, KUpperSlice}).Draw(t, "restKind")}
 		if pct(t, "posName", 50) {
 			pa.Name = fmt.Sprintf("rest%d", g.nField)
 		}
